@@ -172,6 +172,14 @@ def gen_case(rng, maxlen, files_fraction=0.2):
     if base['kind'] == 'gen' or rng.random() < 0.5:
         # loaded/constructed documents usually start from a saved state
         ops.insert(0, {'op': 'save'}) if rng.random() < 0.5 else None
+    if base['kind'] != 'gen' or base.get('split') is not None:
+        # loaded documents: the number of saves between load and the final write matters too (a second
+        # save can repair what the first one left behind): none at all, or the plain load -> write
+        k = rng.random()
+        if k < 0.2:
+            ops = [o for o in ops if o['op'] not in ('save', 'write')]
+        elif k < 0.3:
+            ops = []
     return {'base': base, 'ops': ops}
 
 
